@@ -41,7 +41,10 @@ RULE = ("scenarios = sharding function x store pre-state (empty, shard directori
         "operation (Put, PutVec 3 chunks, aborted PutStream, empty block, 1 KiB block); each once fault-free (trace compared "
         "with the model's system-call list), once killed before each of its system calls, and once per system call x errno "
         "(EIO; +ENOSPC, EACCES on write/rename/mkdir/create; +EEXIST on create and mkdir; +ENOENT on rename); after each run a new "
-        "process lists the store, reads every key and does a further put/get; distinct = distinct (scenario, fault)")
+        "process lists the store, reads every key and does a further put/get; plus Put under a context that reports cancellation "
+        "after PutStream's own check (fault-free; must publish nothing or everything) and two Store values on ONE directory with "
+        "interleaved streams / a Put inside an open stream / the same key (no mixed block, nobody fails); "
+        "distinct = distinct (scenario, fault)")
 
 
 def classify(fs):
